@@ -99,7 +99,7 @@ C05|C07)
   EXTRA_ARGS="-bin $W/goose -bridge $W/gooseb"
   ;;
 C06)
-  instr $REPO/interface.go=sync,go,chan,yieldloops,load
+  instr $REPO/interface.go=sync,go,chan,yieldloops,load,maprange $REPO/goose.go=maprange $REPO/types.go=maprange $REPO/errors.go=maprange $REPO/idents.go=maprange $REPO/internal/coq/coq.go=maprange
   build "$W/bin" ./cmd/$LC -overlay "$W/ov.json" || exit 3
   (cd $REPO && go build -o "$W/goose" ./cmd/goose) || { echo "harness error: goose does not build" >&2; exit 3; }
   (cd $REPO && go build -race -o "$W/goose_race" ./cmd/goose) || { echo "harness error: goose -race does not build" >&2; exit 3; }
